@@ -118,7 +118,9 @@ type Stats struct {
 	Seconds   float64  `json:"seconds"`
 }
 
-// runManaged runs body as the managed main thread of one execution.
+// RunManaged runs body as the managed main thread of one execution (default schedule).
+func RunManaged(body func()) string { return runManaged(body) }
+
 func runManaged(body func()) string {
 	e := &vrt.Explorer{}
 	r := e.RunOnce(nil, false, func() (string, string) { body(); return "", "" })
